@@ -155,3 +155,45 @@ def ipv6_canon(groups, ellipsis_after):
     if ellipsis_after == len(groups):
         out = out + '::'
     return out
+
+
+def digits_value(vals):
+    """the integer written by a list of decimal digit values"""
+    n = 0
+    for v in vals:
+        n = n * 10 + v
+    return n
+
+
+def literal_text(groups, group_mark, frac, decimal_mark, negative):
+    """a numeric literal: optional '-', digit groups joined by the group mark, optional decimal mark + fraction digits"""
+    out = '-' if negative else ''
+    for k in range(len(groups)):
+        if k > 0:
+            out = out + group_mark
+        out = out + digits_text(groups[k])
+    if len(frac) > 0:
+        out = out + decimal_mark + digits_text(frac)
+    return out
+
+
+def literal_value(groups, frac, negative):
+    """the number such a literal denotes"""
+    whole = 0
+    for g in groups:
+        for v in g:
+            whole = whole * 10 + v
+    val = whole
+    if len(frac) > 0:
+        val = whole + digits_value(frac) / (10 ** len(frac))
+    return -val if negative else val
+
+
+def strip_trailing_zeros(frac):
+    k = len(frac)
+    while k > 0 and frac[k - 1] == 0:
+        k = k - 1
+    out = []
+    for j in range(k):
+        out.append(frac[j])
+    return out
